@@ -8,6 +8,7 @@ per-datagram working counters 0/1 and colliding frame indices.
 """
 import asyncio
 import itertools
+import struct
 
 from mc import core, ecparse, explore, seams, stallguard, vloop
 from mc.stallguard import Stall
@@ -78,20 +79,40 @@ def execute(ch, workload):
 
         fresh = itertools.count(2000)
 
+        handed = []
+
+        def candidates():
+            """indices whose re-use is a deviation: those in flight right
+            now (the code must retry) and those handed out earlier in this
+            execution that are free again and of which no copy is left on
+            the wire (legal, the code must cope)"""
+            on_wire = {struct.unpack_from("<I", f, 4)[0]
+                       for _, f in tp.inflight if len(f) >= 8}
+            inflight = sorted(ec.wait_futures)
+            free = [i for i in handed
+                    if i not in ec.wait_futures and i not in on_wire]
+            out = []
+            for i in inflight + free[-2:]:
+                if i not in out:
+                    out.append(i)
+            return out
+
         def randint(a, b):
             # default: an index never used before in this execution (a
             # duplicate of an old frame must not alias a new one: with the
-            # real 10^9 range that has negligible probability); deviation:
-            # an index that is in flight right now (the code must retry)
-            used = sorted(ec.wait_futures)
+            # real 10^9 range that has negligible probability)
+            used = candidates()
             c = ch.choose(1 + len(used), "index")
-            return used[c - 1] if c else next(fresh)
+            v = used[c - 1] if c else next(fresh)
+            if v not in handed:
+                handed.append(v)
+            return v
 
         def randrange(start, stop=None, step=1):
             # the same policy for any other way to draw an index
             if stop is None:
                 start, stop = 0, start
-            used = [i for i in sorted(ec.wait_futures)
+            used = [i for i in candidates()
                     if i in range(start, stop, step)]
             c = ch.choose(1 + len(used), "index")
             if c:
